@@ -33,7 +33,7 @@ class Unsupported(Exception):
     pass
 
 
-IDENT = re.compile(r"^[A-Za-z0-9_:.\-{}/#+ ]*$")
+IDENT = re.compile(r"^[A-Za-z0-9_:.\-{}/#+ <>()\[\]]*$")
 
 
 def q(s):
@@ -473,6 +473,38 @@ def classify(cls, owner, fn, gprops):
     return res, pinned
 
 
+# ------------------------------------------------------------------ 2b. where wrappers are made
+
+def wrap_sites():
+    """every place of the package that turns an lxml node into a wrapper object:
+       calls  <receiver>.from_tag(...) / <receiver>.from_tag_for_clone(...)   -> (module, function, receiver, factory)
+       calls  <anything>(tag_or_elem=...) that are not such a call            -> (module, function, "<callee>", "direct")
+    The model (Registry.v, access paths) assumes the receiver is the base class Element everywhere except in Element.clone
+    (self) -- C12_wrap_sites_as_modelled checks this table on every run."""
+    out = []
+    for f in sorted((SRC / "odfdo").rglob("*.py")):
+        if "scripts" in f.parts:
+            continue
+        tree = ast.parse(f.read_text())
+        mod = f.relative_to(SRC / "odfdo").as_posix()
+
+        def visit(node, fn):
+            for ch in ast.iter_child_nodes(node):
+                name = fn
+                if isinstance(ch, (ast.FunctionDef, ast.AsyncFunctionDef)):
+                    name = ch.name
+                if isinstance(ch, ast.Call):
+                    if isinstance(ch.func, ast.Attribute) and ch.func.attr in ("from_tag", "from_tag_for_clone"):
+                        out.append((mod, fn, ast.unparse(ch.func.value), ch.func.attr))
+                    elif isinstance(ch.func, ast.Name) and ch.func.id in ("from_tag", "from_tag_for_clone"):
+                        out.append((mod, fn, "", ch.func.id))
+                    elif any(k.arg == "tag_or_elem" for k in ch.keywords):
+                        out.append((mod, fn, ast.unparse(ch.func), "direct"))
+                visit(ch, name)
+        visit(tree, "<module>")
+    return out
+
+
 # ------------------------------------------------------------------ 3. emit
 
 def main():
@@ -585,6 +617,11 @@ def main():
            "Definition propdefs : list (string * (string * (string * string))) := [\n" + ";\n".join(prop_lines) + "\n].", "",
            "(* the _properties tuples as declared in the class body itself (declaration order; a later duplicate name overrides) *)",
            "Definition declared_propdefs : list (string * (string * (string * string))) := [\n" + ";\n".join(decl_lines) + "\n].", ""]
+    sites = wrap_sites()
+    info["wrap_sites"] = sites
+    reg += ["(* every place that makes a wrapper from an lxml node: (module, (enclosing function, (receiver / callee, factory))) *)",
+            "Definition wrap_sites : list (string * (string * (string * string))) := [\n"
+            + ";\n".join("  (%s, (%s, (%s, %s)))" % (q(a), q(b), q(c), q(d)) for a, b, c, d in sites) + "\n].", ""]
     ct = [hdr, "From Coq Require Import String List ZArith. Import ListNotations. Open Scope string_scope.",
           "Require Import Attr.", "",
           "Definition ctors : list centry := [\n" + ";\n".join(ctor_lines) + "\n].", ""]
